@@ -93,8 +93,9 @@ def bystander_trace(cfg, ops, off, marks, mode, without):
         return any(re.search(r'\b%s\b' % sid, txt) for sid in mine)
     issued = sorted(set(re.findall(r'sid.{1,5}?(S\d+)', repr([e for effs, _t in results for e in effs if e[0] == 'Out']))))
     trace = [['issued', issued]]
-    for i, (effs, _t) in zip(keep, results):
-        o = ops[i]
+    from props import srvcommon
+    expanded = [(i, x) for i in keep for x in srvcommon.expand([ops[i]])]      # one result per MODEL operation
+    for (i, o), (effs, _t) in zip(expanded, results):
         if o[0] in ('msg', 'msg_nested', 'msg_sd', 'eio_connect', 'close') and o[1] == off:
             continue
         if mentions_mine(o):
@@ -105,6 +106,11 @@ def bystander_trace(cfg, ops, off, marks, mode, without):
                 continue
             if mentions_mine(e):
                 continue
+            if o[0] == 'enter' and e[0] == 'Raised' and e[1] in ('KeyError', 'ValueError'):
+                # enter_room for a session that is gone fails either way; WHICH error the application sees depends
+                # on whether anybody (the offender included) is still connected to that namespace, and the
+                # offender's own connection state is outside the claim
+                e = ('Raised', 'NotConnected')
             view.append(ren([e[0]] + [x for x in e[1:]]))
         trace.append(ren([i if not without else i, view])[1])
     return trace
@@ -164,6 +170,13 @@ def run(chk):
     chk.assumptions = ["the offender's own connection may be left unusable (outside the claim)",
                        'msgpack serializer: see MsgPack notes in DESIGN.md (decode is the library oracle)']
     from props import srvcommon, c03
+    # a server that reserves memory in proportion to a declared number must fail here with MemoryError
+    # (contained by engine.io) instead of taking the whole sandbox down
+    import resource
+    try:
+        resource.setrlimit(resource.RLIMIT_AS, (6 << 30, 6 << 30))
+    except (ValueError, OSError):
+        pass
     chk.rule = ('histories of well-formed traffic of 2-5 clients with a malformed stream (grammar mutations of valid frames, '
                 'engine.io-level JSON payloads, stray binary; msgpack: truncated / concatenated / trailing-byte / mistyped blobs) '
                 'injected from one offender after ~45% of the operations; the Coq checker judges every offender message: no packet '
